@@ -254,6 +254,28 @@ func (r *Replayer) LoadInitial() error {
 	})
 }
 
+// LoadInitialFrom seeds the model with the content of src, mapped below Root (src is a pristine copy of the
+// directory the traced process is going to work on).
+func (r *Replayer) LoadInitialFrom(src string) error {
+	src = filepath.Clean(src)
+	return filepath.Walk(src, func(p string, info os.FileInfo, err error) error {
+		if err != nil {
+			return err
+		}
+		t := filepath.Join(r.Root, strings.TrimPrefix(p, src))
+		if info.IsDir() {
+			r.dirs[filepath.Clean(t)] = true
+			return nil
+		}
+		b, err := os.ReadFile(p)
+		if err != nil {
+			return err
+		}
+		r.files[filepath.Clean(t)] = &file{data: b}
+		return nil
+	})
+}
+
 func (r *Replayer) under(p string) bool {
 	return p == r.Root || strings.HasPrefix(p, r.Root+"/")
 }
@@ -522,20 +544,30 @@ func (r *Replayer) Feed(line string) []Event {
 			delete(r.dirs, p)
 			mut("rmdir", p, -1)
 		} else {
+			// Only unlinks relative to a directory descriptor belong to a run whose order is the directory's listing
+			// order (that is how os.RemoveAll walks a directory). An unlink of an absolute path (os.Remove) is placed
+			// by the program itself and is never permuted.
+			listingOrdered := c.Name == "unlinkat" && len(c.Args) >= 1 && c.Args[0] != "AT_FDCWD"
 			d := filepath.Dir(p)
-			if d != r.lastUnlinkDir {
+			if d != r.lastUnlinkDir || !listingOrdered {
 				r.UnlinkRun = nil
 				r.UnlinkSaved = map[string][]byte{}
 				r.lastUnlinkDir = d
 			}
-			if f := r.files[p]; f == nil {
+			f := r.files[p]
+			if f == nil {
 				r.problem("unlink of unknown file %s succeeded", p)
-			} else {
-				r.UnlinkSaved[p] = f.data
 			}
 			delete(r.files, p)
-			isUnlink = true
-			r.UnlinkRun = append(r.UnlinkRun, p)
+			if listingOrdered {
+				if f != nil {
+					r.UnlinkSaved[p] = f.data
+				}
+				isUnlink = true
+				r.UnlinkRun = append(r.UnlinkRun, p)
+			} else {
+				r.lastUnlinkDir = ""
+			}
 			mut("unlink", p, -1)
 		}
 	case "mkdir", "mkdirat":
